@@ -1,6 +1,6 @@
 (* C06 -- the unadjusted Laplace sampler: its stacked operator, its normal equations, and when they are those
    of the documented local Gaussian approximation at the current state. *)
-From CV Require Import Base.Tac Base.LinAlg Base.QcLin Model.C06_RTO Proofs.C06_Lin.
+From CV Require Import Base.Tac Base.LinAlg Base.Cmp Base.QcLin Model.C06_RTO Proofs.C06_Lin.
 From Coq Require Import Ring QArith Qcanon.
 
 Section U.
@@ -30,6 +30,11 @@ Let add_z_r := vadd_vzero_r R r0 r1 radd rmul rsub ropp Rth.
 Let vaddlen := vadd_len R r0 r1 radd rmul rsub ropp Rth.
 Let mtv_add := mattvec_vadd R r0 r1 radd rmul rsub ropp Rth.
 Let Model_wf := model_wf R r0 radd rmul.
+
+Lemma firstn_app_len {A} m (u w : list A) : length u = m -> firstn m (u ++ w) = u.
+Proof. intros <-. apply firstn_app_exact. Qed.
+Lemma skipn_app_len {A} m (u w : list A) : length u = m -> skipn m (u ++ w) = w.
+Proof. intros <-. apply skipn_app_exact. Qed.
 
 Lemma vscale_vscale a b v : Vscale a (Vscale b v) = Vscale (a * b) v.
 Proof. induction v as [|c v IH]; simpl; [reflexivity|]. f_equal; [ring | apply IH]. Qed.
@@ -98,9 +103,7 @@ Lemma ugla_MtM c sw x : ugla_wf c sw ->
          (Vscale (g_rs c * g_rs c) (DtWD R r0 radd rmul c sw x)).
 Proof.
   intros [HM HL HLl HD Hsw]. unfold ugla_M_adj, ugla_M_fwd, DtWD.
-  rewrite <- HLl at 2 3. rewrite <- (matvec_length R r0 radd rmul (g_L1 c) (fwd (g_model c) x)).
-  rewrite firstn_app_exact, skipn_app_exact.
-  rewrite matvec_length, HLl.
+  rewrite firstn_app_len, skipn_app_len by (rewrite matvec_length; exact HLl).
   rewrite mattvec_vscale by (apply scale_rows_wf; exact HD).
   rewrite vscale_vscale. reflexivity.
 Qed.
@@ -114,9 +117,7 @@ Lemma ugla_Mtb v c sw : ugla_wf c sw ->
          (Vscale (ugla_k v c) (DtWD R r0 radd rmul c sw (bcast (g_n c) (g_loc c)))).
 Proof.
   intros [HM HL HLl HD Hsw]. unfold ugla_M_adj, ugla_b_tild, ugla_L2mu, DtWD.
-  rewrite <- HLl at 2 3. rewrite <- (matvec_length R r0 radd rmul (g_L1 c) (g_data c)).
-  rewrite firstn_app_exact, skipn_app_exact.
-  rewrite matvec_length, HLl.
+  rewrite firstn_app_len, skipn_app_len by (rewrite matvec_length; exact HLl).
   destruct v; simpl; [reflexivity|].
   rewrite mattvec_vscale by (apply scale_rows_wf; exact HD).
   rewrite vscale_vscale. reflexivity.
@@ -222,7 +223,13 @@ Definition wit_scale : ugla_cfg Qc :=          (* scale = 4: rs = 1/2 *)
 Definition wit_weights : ugla_cfg Qc :=        (* scale = 1 *)
   mkUgla 2%nat wit_model [[1; 0]; [0; 1]] [0; 0] [[- (1); 1]] [0; - qcz 4] 1.
 
-Definition q_weight_law := weight_law Qc 1 Qcplus Qcmult.
+Lemma qcl_eq_dec_true (a b : list Qc) : qcl_eqb a b = true <-> a = b.
+Proof. apply list_eqb_spec. apply qc_eqb_eq. Qed.
+Ltac qcl_neq := let E := fresh in intros E; apply qcl_eq_dec_true in E; vm_compute in E; discriminate E.
+Ltac qcl_eq := apply qcl_eq_dec_true; vm_compute; reflexivity.
+Ltac qc_law := repeat (constructor; [apply Qc_is_canon; vm_compute; reflexivity|]); constructor.
+
+Definition q_weight_law := weight_law Qc 0 1 Qcplus Qcmult.
 Definition q_ugla_normal_eq := ugla_normal_eq Qc 0 Qcplus Qcmult.
 
 (* (b) the right-hand side: x_k = [0; 1], beta = 15: (D x_k)^2 = (D (x_k - loc))^2 = 1, so the weights agree
@@ -236,12 +243,12 @@ Lemma ugla_refuted_scale_holds :
   q_ugla_normal_eq UglaCode c sw [0; 0; 0] x /\
   q_ugla_H_doc c [[1; 0]; [0; 1]] sw x <> q_ugla_rhs_doc c [[1; 0]; [0; 1]] sw.
 Proof.
-  cbv zeta. repeat split.
-  - vm_compute. discriminate.
-  - vm_compute. repeat constructor.
-  - vm_compute. repeat constructor.
-  - vm_compute. reflexivity.
-  - vm_compute. discriminate.
+  cbv zeta. split; [|split; [|split; [|split]]].
+  - qcl_neq.
+  - unfold q_weight_law, weight_law. qc_law.
+  - unfold q_weight_law, weight_law. qc_law.
+  - unfold q_ugla_normal_eq, ugla_normal_eq. qcl_eq.
+  - qcl_neq.
 Qed.
 
 (* (a) the weights: scale = 1, x_k = [0; -1/8], beta = 63/64: code weights from D x_k = -1/8 (sw = 1),
@@ -256,10 +263,10 @@ Lemma ugla_refuted_weights_holds :
   q_ugla_normal_eq UglaCode c sw [0; 0; 0] x /\
   q_ugla_H_doc c [[1; 0]; [0; 1]] swd x <> q_ugla_rhs_doc c [[1; 0]; [0; 1]] swd.
 Proof.
-  cbv zeta. repeat split.
-  - vm_compute. discriminate.
-  - vm_compute. repeat constructor.
-  - vm_compute. repeat constructor.
-  - vm_compute. reflexivity.
-  - vm_compute. discriminate.
+  cbv zeta. split; [|split; [|split; [|split]]].
+  - qcl_neq.
+  - unfold q_weight_law, weight_law. qc_law.
+  - unfold q_weight_law, weight_law. qc_law.
+  - unfold q_ugla_normal_eq, ugla_normal_eq. qcl_eq.
+  - qcl_neq.
 Qed.
